@@ -7,13 +7,30 @@
  * the table content; the driver realises "the next ids after the cursor are in
  * use" (the situation every alloc counterexample needs) with the real
  * nni_id_set, and "the inner allocation fails" with a failing allocator or an
- * exhausted range. */
+ * exhausted range.
+ *
+ * nni_id_set / nni_id_remove / nni_id_get / id_resize: the snapshot holds the
+ * whole table (scalars + first 16 slots), so the driver rebuilds exactly the
+ * pre-state of the counterexample (replay_table, below). */
 #include "vp_native.h"
 #include "core/nng_impl.h"
 static int vp_fail_alloc;
-void *nni_alloc(size_t sz) { return ((sz > 0 && !vp_fail_alloc) ? malloc(sz) : NULL); }
-void *nni_zalloc(size_t sz) { return ((sz > 0 && !vp_fail_alloc) ? calloc(1, sz) : NULL); }
-void  nni_free(void *p, size_t sz) { (void) sz; free(p); }
+static long vp_n_alloc, vp_n_free, vp_n_refused;
+static void *
+vp_env_alloc(size_t sz, int zero)
+{
+	if (sz == 0)
+		return (NULL);
+	if (vp_fail_alloc) {
+		vp_n_refused++;
+		return (NULL);
+	}
+	vp_n_alloc++;
+	return (zero ? calloc(1, sz) : malloc(sz));
+}
+void *nni_alloc(size_t sz) { return (vp_env_alloc(sz, 0)); }
+void *nni_zalloc(size_t sz) { return (vp_env_alloc(sz, 1)); }
+void  nni_free(void *p, size_t sz) { (void) sz; if (p != NULL) vp_n_free++; free(p); }
 uint32_t nni_random(void) { return (12345u); }
 void nni_mtx_lock(nni_mtx *m) { (void) m; }
 void nni_mtx_unlock(nni_mtx *m) { (void) m; }
@@ -21,6 +38,524 @@ void nni_panic(const char *fmt, ...) { (void) fmt; abort(); }
 #include "core/idhash.c" /* the real file, via -I/repo/src */
 
 #define IN_RANGE(m, id) ((id) >= (m)->id_min_val && (id) <= (m)->id_max_val)
+
+
+#include <unistd.h>
+#include <signal.h>
+#include "modules/idhash/spec.h"
+
+/* ===================================================================== table replay
+ * Pre-state = the vp_in_* snapshot of VP_SNAP_IDM_FULL (spec.h). */
+#define T_MAXCAP 16u
+#define VAL(i) ((void *) (uintptr_t) (0x1000 + 16 * (uintptr_t) (i))) /* value of the slot that is live in the pre-state */
+#define NEWVAL ((void *) (uintptr_t) 0xABC0)
+
+typedef struct {
+	uint32_t cap, count, load, minl, maxl;
+	uint64_t key[T_MAXCAP];
+	uint32_t skips[T_MAXCAP];
+	bool     live[T_MAXCAP];
+	unsigned nlive;
+	bool     consistent; /* the real representation invariant holds (a table the API can produce) */
+} pre_t;
+static pre_t P;
+
+static uint64_t
+slotv(const char *fmt, unsigned i)
+{
+	return vp_fmt(0, fmt, i);
+}
+
+/* steps from slot h to slot j on the probe cycle x -> 5x+1 */
+static unsigned
+dist(uint32_t cap, size_t h, size_t j)
+{
+	unsigned d = 0;
+	while (h != j && d <= cap) {
+		h = ((h * 5) + 1) & (cap - 1);
+		d++;
+	}
+	return d;
+}
+
+/* The Layer-1 contracts only assume the STRUCTURAL invariant, and id_find / id_resize are replaced
+ * by their contracts in some units, so a counterexample table may be one the API can never produce
+ * (more live slots than `count`, duplicate keys, arbitrary skip counters): the real code need not
+ * even terminate on it.  normalise() derives the nearest table the API CAN produce: same capacity,
+ * same count, `count` of the counterexample's live (key, slot) pairs with pairwise distinct keys --
+ * chosen so that the load counter makes the same resize decision as the counterexample, keeps the
+ * slot of the operated key when there is one, and is as close as possible to the counterexample's
+ * load -- with the skip counters and the load recomputed from those entries. */
+static unsigned n_best[T_MAXCAP], n_cur[T_MAXCAP], n_nbest;
+static long     n_bestscore;
+static void
+norm_search(unsigned from, unsigned n, uint32_t load, bool has_id, uint64_t id, bool want_thr)
+{
+	if (n == P.count) {
+		bool thr   = (load < P.maxl && load >= P.minl);
+		long score = (thr == want_thr ? 1000000 : 0) + (has_id ? 100000 : 0) - labs((long) load - (long) P.load);
+		if (n_nbest == (unsigned) -1 || score > n_bestscore) {
+			n_bestscore = score;
+			n_nbest     = n;
+			memcpy(n_best, n_cur, sizeof(n_cur));
+		}
+		return;
+	}
+	for (unsigned i = from; i < P.cap; i++) {
+		bool dup = !P.live[i];
+		for (unsigned j = 0; j < n && !dup; j++)
+			dup = P.key[n_cur[j]] == P.key[i];
+		if (dup)
+			continue;
+		n_cur[n] = i;
+		norm_search(i + 1, n + 1, load + 1 + dist(P.cap, (size_t) (P.key[i] & (P.cap - 1)), i), has_id || P.key[i] == id, id, want_thr);
+	}
+}
+static void
+normalise(void)
+{
+	if (P.cap == 0)
+		return;
+	n_nbest = (unsigned) -1;
+	norm_search(0, 0, 0, false, vp_u64("vp_arg_id", 0), (P.load < P.maxl && P.load >= P.minl));
+	if (n_nbest == (unsigned) -1)
+		return; /* fewer than `count` distinct live keys: left as it is */
+	bool     keep[T_MAXCAP] = { false };
+	uint32_t load = 0;
+	for (unsigned j = 0; j < n_nbest; j++)
+		keep[n_best[j]] = true;
+	printf("counterexample table: cap=%u count=%u load=%u, %u live slots -- not a table the API can produce;\n"
+	       "replaying the nearest one that is (%u of its live entries, skips/load recomputed):\n",
+	    P.cap, P.count, P.load, P.nlive, P.count);
+	for (unsigned i = 0; i < P.cap; i++) {
+		P.skips[i] = 0;
+		if (!keep[i]) {
+			P.live[i] = false;
+			P.key[i]  = 0;
+		}
+	}
+	for (unsigned i = 0; i < P.cap; i++) {
+		if (!P.live[i])
+			continue;
+		size_t h = (size_t) (P.key[i] & (P.cap - 1));
+		load += 1 + dist(P.cap, h, i);
+		for (size_t j = h; j != i; j = ((j * 5) + 1) & (P.cap - 1))
+			P.skips[j]++;
+	}
+	P.load       = load;
+	P.nlive      = P.count;
+	P.consistent = true;
+}
+
+static bool
+load_pre(void)
+{
+	memset(&P, 0, sizeof(P));
+	if (!vp_has("vp_in_load")) {
+		printf("REPLAY-RESULT: skipped (trace has no full table snapshot)\n");
+		return false;
+	}
+	P.cap   = (uint32_t) vp_u64("vp_in_cap", 0);
+	P.count = (uint32_t) vp_u64("vp_in_count", 0);
+	P.load  = (uint32_t) vp_u64("vp_in_load", 0);
+	P.minl  = (uint32_t) vp_u64("vp_in_minload", 0);
+	P.maxl  = (uint32_t) vp_u64("vp_in_maxload", 0);
+	if (P.cap > T_MAXCAP) {
+		printf("REPLAY-RESULT: skipped (capacity %u: only the first %u slots are in the snapshot)\n", P.cap, T_MAXCAP);
+		return false;
+	}
+	/* IDM_SCALAR: the scalar part of the precondition */
+	bool scalar = (P.cap == 0) ? (P.count == 0 && P.load == 0 && P.minl == 0 && P.maxl == 0)
+	                           : (VP_POW2(P.cap) && P.cap >= 8 && P.minl == IDM_MINL(P.cap) && P.maxl == IDM_MAXL(P.cap));
+	if (!scalar) {
+		printf("REPLAY-RESULT: skipped (pre-state outside the contract's precondition IDM_SCALAR)\n");
+		return false;
+	}
+	for (unsigned i = 0; i < P.cap; i++) {
+		P.key[i]   = slotv("vp_in_k%u", i);
+		P.live[i]  = slotv("vp_in_v%u", i) != 0;
+		P.skips[i] = (uint32_t) slotv("vp_in_s%u", i);
+		P.nlive += P.live[i];
+	}
+	/* the real invariant (l2.h, written for any capacity): count = live slots, live keys distinct,
+	 * skips[j] = number of live keys whose probe path crosses j, load = sum of path lengths */
+	P.consistent = (P.nlive == P.count);
+	uint32_t cross[T_MAXCAP] = { 0 }, load = 0;
+	for (unsigned i = 0; i < P.cap; i++) {
+		if (!P.live[i])
+			continue;
+		size_t   h = (size_t) (P.key[i] & (P.cap - 1));
+		unsigned d = dist(P.cap, h, i);
+		load += 1 + d;
+		for (size_t j = h; j != i; j = ((j * 5) + 1) & (P.cap - 1))
+			cross[j]++;
+		for (unsigned j = i + 1; j < P.cap; j++)
+			if (P.live[j] && P.key[j] == P.key[i])
+				P.consistent = false;
+	}
+	for (unsigned j = 0; j < P.cap; j++)
+		if (cross[j] != P.skips[j])
+			P.consistent = false;
+	if (load != P.load)
+		P.consistent = false;
+	if (!P.consistent)
+		normalise();
+	return true;
+}
+
+static void
+build_map(nni_id_map *m)
+{
+	memset(m, 0, sizeof(*m));
+	m->id_cap      = P.cap;
+	m->id_count    = P.count;
+	m->id_load     = P.load;
+	m->id_min_load = P.minl;
+	m->id_max_load = P.maxl;
+	m->id_min_val  = vp_u64("vp_in_min", 1);
+	m->id_max_val  = vp_u64("vp_in_max", 0xffffffffu);
+	m->id_dyn_val  = vp_u64("vp_in_dyn", 0);
+	m->id_random   = vp_u64("vp_in_random", 0) != 0;
+	m->id_static   = false; /* registry of static maps not replayed */
+	m->id_entries  = P.cap ? calloc(P.cap, sizeof(nni_id_entry)) : NULL; /* exact size: ASan sees a stale index */
+	for (unsigned i = 0; i < P.cap; i++) {
+		m->id_entries[i].key   = P.key[i];
+		m->id_entries[i].skips = P.skips[i];
+		m->id_entries[i].val   = P.live[i] ? VAL(i) : NULL;
+	}
+}
+
+static void
+show_pre(void)
+{
+	printf("table: cap=%u count=%u load=%u (thresholds %u..%u) %s\n", P.cap, P.count, P.load, P.minl, P.maxl,
+	    P.consistent ? "[satisfies the real probe-chain invariant]" : "[structurally valid only: not a table the API produces]");
+	for (unsigned i = 0; i < P.cap; i++)
+		if (P.live[i] || P.skips[i] || P.key[i])
+			printf("  slot %2u: key=%llu %s skips=%u\n", i, (unsigned long long) P.key[i], P.live[i] ? "live" : "dead", P.skips[i]);
+}
+
+/* hang guard: on a table that satisfies the real invariant a hang IS the defect */
+static const char *vp_running = "";
+static uint64_t    vp_running_id;
+void
+__asan_on_error(void) /* hook called by ASan before it prints its report */
+{
+	printf("REPLAY-FAIL: memory error inside %s (key %llu) on the table above\n", vp_running, (unsigned long long) vp_running_id);
+	fflush(stdout);
+}
+static void
+on_alarm(int sig)
+{
+	(void) sig;
+	if (P.consistent) {
+		printf("REPLAY-FAIL: %s does not terminate (10 s) on a well-formed table\nREPLAY-RESULT: reproduced (hang)\n", vp_running);
+		_exit(1);
+	}
+	printf("REPLAY-RESULT: skipped (%s did not finish on a table the API cannot produce)\n", vp_running);
+	_exit(3);
+}
+
+#define SCALAR_NOW(m) \
+	(((m)->id_cap == 0) ? ((m)->id_count == 0 && (m)->id_load == 0 && (m)->id_min_load == 0 && (m)->id_max_load == 0) \
+	                    : (VP_POW2((m)->id_cap) && (m)->id_cap >= 8 && (m)->id_min_load == IDM_MINL((m)->id_cap) && (m)->id_max_load == IDM_MAXL((m)->id_cap)))
+#define IS_NEWCAP(cap, count) \
+	(VP_POW2(cap) && (cap) >= 8 && (uint64_t) (cap) >= 2 * (uint64_t) (count) && ((cap) == 8 || (uint64_t) ((cap) / 2) < 2 * (uint64_t) (count)))
+#define RANGE_SAME(m) ((m)->id_min_val == vp_u64("vp_in_min", 1) && (m)->id_max_val == vp_u64("vp_in_max", 0xffffffffu) && (m)->id_random == (vp_u64("vp_in_random", 0) != 0) && !(m)->id_static)
+
+/* entries array as before: same block, nothing allocated or released, (for failure paths) content identical */
+static bool
+kept(const nni_id_map *m, const nni_id_entry *e0)
+{
+	return (m->id_cap == P.cap && m->id_entries == e0 && vp_n_alloc == 0 && vp_n_free == 0);
+}
+static bool
+fresh(const nni_id_map *m)
+{
+	return (m->id_cap != P.cap && m->id_cap != 0 && vp_n_alloc == 1 && vp_n_free == (P.cap != 0 ? 1 : 0));
+}
+static bool
+slots_same(const nni_id_map *m, bool with_skips)
+{
+	for (unsigned i = 0; i < P.cap; i++) {
+		if (m->id_entries[i].key != P.key[i] || m->id_entries[i].val != (P.live[i] ? VAL(i) : NULL))
+			return false;
+		if (with_skips && m->id_entries[i].skips != P.skips[i])
+			return false;
+	}
+	return true;
+}
+/* finite-map view (C18): every key that was live still maps to its value (except `but`) */
+static void
+others_kept(nni_id_map *m, uint64_t but)
+{
+	for (unsigned i = 0; i < P.cap; i++) {
+		if (P.live[i] && P.key[i] != but) {
+			void *v = nni_id_get(m, P.key[i]);
+			if (v != VAL(i))
+				printf("  key %llu: value before %p, nni_id_get now %p\n", (unsigned long long) P.key[i], VAL(i), v);
+			VP_EXPECT(v == VAL(i));
+		}
+	}
+}
+/* termination of the real code on a structurally-valid-only table: enough empty slots */
+static bool
+can_run(bool inserts)
+{
+	uint32_t nc = 8;
+	while (nc < P.count * 2 && nc < (1u << 30))
+		nc *= 2;
+	bool resize = !(P.load < P.maxl && P.load >= P.minl) && nc != P.cap;
+	uint32_t capa = resize ? nc : P.cap;
+	if (P.consistent)
+		return true;
+	if (P.nlive + (inserts ? 1 : 0) > capa || P.nlive > nc) {
+		printf("  (not run: %u live slots do not fit the capacity %u chosen for count=%u)\n", P.nlive, capa, P.count);
+		return false;
+	}
+	return true;
+}
+
+static void
+one_resize(int refuse)
+{
+	nni_id_map m;
+	build_map(&m);
+	nni_id_entry *e0 = m.id_entries;
+	vp_n_alloc = vp_n_free = vp_n_refused = 0;
+	vp_fail_alloc = refuse;
+	vp_running    = "id_resize";
+	int rv        = id_resize(&m);
+	vp_fail_alloc = 0;
+	bool in_thr = (P.load < P.maxl && P.load >= P.minl);
+	printf("id_resize (allocator %s) -> %d; now cap=%u count=%u load=%u thresholds %u..%u\n", refuse ? "refuses" : "ok", rv,
+	    m.id_cap, m.id_count, m.id_load, m.id_min_load, m.id_max_load);
+	VP_EXPECT(rv == 0 || rv == NNG_ENOMEM);
+	VP_EXPECT(RANGE_SAME(&m) && m.id_dyn_val == vp_u64("vp_in_dyn", 0) && m.id_count == P.count);
+	if (rv != 0) {
+		/* allocation failure: the map is exactly as before */
+		VP_EXPECT(m.id_load == P.load && m.id_min_load == P.minl && m.id_max_load == P.maxl);
+		VP_EXPECT(kept(&m, e0) && slots_same(&m, true));
+		VP_EXPECT(!in_thr && vp_n_refused > 0);
+	} else {
+		VP_EXPECT(SCALAR_NOW(&m));
+		VP_EXPECT((m.id_load == P.load && kept(&m, e0) && slots_same(&m, true)) || (fresh(&m) && IS_NEWCAP(m.id_cap, m.id_count)));
+		VP_EXPECT(m.id_cap != 0 && ((m.id_load < m.id_max_load && m.id_load >= m.id_min_load) || IS_NEWCAP(m.id_cap, m.id_count)));
+		if (P.consistent)
+			others_kept(&m, UINT64_MAX);
+	}
+	if (in_thr)
+		VP_EXPECT(rv == 0 && m.id_cap == P.cap);
+	if (rv != 0 && P.consistent && m.id_cap == P.cap && m.id_cap != 0) {
+		/* what a user sees next (C20: a failed grow leaves a usable table): fill it up */
+		uint64_t k = 1000;
+		int      n = 0;
+		vp_running = "nni_id_set after the failed resize";
+		while (m.id_count < m.id_cap && n < 64) {
+			vp_fail_alloc = 1;
+			int r2        = nni_id_set(&m, k++, NEWVAL);
+			vp_fail_alloc = 0;
+			n++;
+			if (r2 != 0)
+				break;
+		}
+	}
+	free(m.id_entries);
+}
+
+static void
+one_set(uint64_t id, int refuse, bool is_cex)
+{
+	nni_id_map m;
+	build_map(&m);
+	nni_id_entry *e0 = m.id_entries;
+	int           was = -1;
+	for (unsigned i = 0; i < P.cap; i++)
+		if (P.live[i] && P.key[i] == id && was < 0)
+			was = (int) i;
+	vp_n_alloc = vp_n_free = vp_n_refused = 0;
+	vp_fail_alloc = refuse;
+	vp_running    = "nni_id_set";
+	vp_running_id = id;
+	int rv        = nni_id_set(&m, id, NEWVAL);
+	vp_fail_alloc = 0;
+	int before    = vp_fail_count;
+	VP_EXPECT(rv == 0 || rv == NNG_ENOMEM);
+	VP_EXPECT(RANGE_SAME(&m) && m.id_dyn_val == vp_u64("vp_in_dyn", 0));
+	if (rv != 0) {
+		VP_EXPECT(m.id_count == P.count && m.id_load == P.load && m.id_min_load == P.minl && m.id_max_load == P.maxl);
+		VP_EXPECT(kept(&m, e0) && slots_same(&m, true));
+		VP_EXPECT(vp_n_refused > 0);
+	} else {
+		VP_EXPECT(SCALAR_NOW(&m) && m.id_cap != 0);
+		VP_EXPECT(m.id_count == P.count || m.id_count == P.count + 1);
+		VP_EXPECT(kept(&m, e0) || fresh(&m));
+		/* some slot holds (id, val) */
+		int at = -1;
+		for (unsigned i = 0; i < m.id_cap; i++)
+			if (m.id_entries[i].key == id && m.id_entries[i].val == NEWVAL)
+				at = (int) i;
+		VP_EXPECT(at >= 0);
+		if (kept(&m, e0)) {
+			/* frame: every other slot keeps its key and value; an overwrite changes nothing but the value */
+			for (unsigned i = 0; i < P.cap; i++)
+				if ((int) i != at)
+					VP_EXPECT(m.id_entries[i].key == P.key[i] && m.id_entries[i].val == (P.live[i] ? VAL(i) : NULL));
+			if (m.id_count == P.count)
+				VP_EXPECT(m.id_load == P.load);
+		}
+		if (P.consistent) {
+			/* finite map (C18): the id now maps to val, nothing else changed, count tells the truth */
+			VP_EXPECT(nni_id_get(&m, id) == NEWVAL);
+			VP_EXPECT(m.id_count == P.count + (was < 0 ? 1 : 0));
+			others_kept(&m, id);
+		}
+	}
+	if (is_cex || vp_fail_count != before)
+		printf("nni_id_set(id=%llu%s, allocator %s) -> %d; now cap=%u count=%u load=%u%s\n", (unsigned long long) id,
+		    was >= 0 ? " [present]" : " [absent]", refuse ? "refuses" : "ok", rv, m.id_cap, m.id_count, m.id_load,
+		    is_cex ? "   [counterexample argument]" : "   [same table, other key]");
+	free(m.id_entries);
+}
+
+static void
+one_remove(uint64_t id, int refuse, bool is_cex)
+{
+	nni_id_map m;
+	build_map(&m);
+	nni_id_entry *e0 = m.id_entries;
+	int           was = -1;
+	for (unsigned i = 0; i < P.cap; i++)
+		if (P.live[i] && P.key[i] == id && was < 0)
+			was = (int) i;
+	vp_n_alloc = vp_n_free = vp_n_refused = 0;
+	vp_fail_alloc = refuse;
+	vp_running    = "nni_id_remove";
+	vp_running_id = id;
+	int rv        = nni_id_remove(&m, id);
+	vp_fail_alloc = 0;
+	int before    = vp_fail_count;
+	VP_EXPECT(rv == 0 || rv == NNG_ENOENT);
+	VP_EXPECT(RANGE_SAME(&m) && m.id_dyn_val == vp_u64("vp_in_dyn", 0));
+	if (P.count == 0)
+		VP_EXPECT(rv == NNG_ENOENT);
+	if (rv != 0) {
+		VP_EXPECT(m.id_count == P.count && m.id_load == P.load && m.id_min_load == P.minl && m.id_max_load == P.maxl);
+		VP_EXPECT(kept(&m, e0) && slots_same(&m, true));
+		if (P.consistent)
+			VP_EXPECT(was < 0);
+	} else {
+		VP_EXPECT(SCALAR_NOW(&m) && m.id_cap != 0 && P.count >= 1 && m.id_count == P.count - 1);
+		VP_EXPECT(kept(&m, e0) || fresh(&m));
+		VP_EXPECT(was >= 0); /* the reported slot held this id with a value */
+		if (kept(&m, e0)) {
+			/* exactly one slot that held the id is empty now, nothing else lost its key or value */
+			int changed = 0, good = 0;
+			for (unsigned i = 0; i < P.cap; i++) {
+				bool same = m.id_entries[i].key == P.key[i] && m.id_entries[i].val == (P.live[i] ? VAL(i) : NULL);
+				if (!same) {
+					changed++;
+					good += (P.live[i] && P.key[i] == id && m.id_entries[i].val == NULL && m.id_entries[i].key == 0);
+				}
+			}
+			VP_EXPECT(changed == 1 && good == 1);
+		}
+		if (P.consistent) {
+			VP_EXPECT(nni_id_get(&m, id) == NULL);
+			others_kept(&m, id);
+		}
+	}
+	if (is_cex || vp_fail_count != before)
+		printf("nni_id_remove(id=%llu%s, allocator %s) -> %d; now cap=%u count=%u load=%u%s\n", (unsigned long long) id,
+		    was >= 0 ? " [present]" : " [absent]", refuse ? "refuses" : "ok", rv, m.id_cap, m.id_count, m.id_load,
+		    is_cex ? "   [counterexample argument]" : "   [same table, other key]");
+	free(m.id_entries);
+}
+
+static void
+one_get(uint64_t id, bool is_cex)
+{
+	nni_id_map m;
+	build_map(&m);
+	nni_id_entry *e0 = m.id_entries;
+	vp_n_alloc = vp_n_free = 0;
+	vp_running = "nni_id_get";
+	void *rv   = nni_id_get(&m, id);
+	int before = vp_fail_count, at = -1, was = -1;
+	for (unsigned i = 0; i < P.cap; i++) {
+		if (rv != NULL && P.key[i] == id && P.live[i] && VAL(i) == rv)
+			at = (int) i;
+		if (P.live[i] && P.key[i] == id && was < 0)
+			was = (int) i;
+	}
+	VP_EXPECT(rv == NULL || at >= 0);
+	if (P.count == 0)
+		VP_EXPECT(rv == NULL);
+	VP_EXPECT(kept(&m, e0) && slots_same(&m, true) && m.id_count == P.count && m.id_load == P.load);
+	if (P.consistent)
+		VP_EXPECT(rv == (was >= 0 ? VAL(was) : NULL)); /* finite map: the value stored under the id */
+	if (is_cex || vp_fail_count != before)
+		printf("nni_id_get(id=%llu%s) -> %p%s\n", (unsigned long long) id, was >= 0 ? " [present]" : " [absent]", rv,
+		    is_cex ? "   [counterexample argument]" : "   [same table, other key]");
+	free(m.id_entries);
+}
+
+static int
+replay_table(const char *fn)
+{
+	if (!load_pre())
+		return 3;
+	show_pre();
+	signal(SIGALRM, on_alarm);
+	alarm(10);
+	uint64_t id = vp_u64("vp_arg_id", 1);
+	/* candidate keys: the counterexample's, then every live key of the same table and one absent key
+	 * (id_find / id_resize are replaced by their contracts in the CBMC run, so the trace fixes the
+	 * table but not always the key that shows the defect natively; every key is a legal argument) */
+	uint64_t cand[T_MAXCAP + 3];
+	unsigned nc = 0;
+	cand[nc++]  = id;
+	for (unsigned i = 0; i < P.cap; i++)
+		if (P.live[i] && P.key[i] != id)
+			cand[nc++] = P.key[i];
+	uint64_t absent = 0x5151;
+	for (unsigned i = 0; i < P.cap; i++)
+		if (P.live[i] && P.key[i] == absent)
+			absent += 0x10000, i = (unsigned) -1;
+	if (absent != id)
+		cand[nc++] = absent;
+	if (strcmp(fn, "id_resize") == 0) {
+		if (!can_run(false)) {
+			printf("REPLAY-RESULT: skipped (the real code need not terminate on this table)\n");
+			return 3;
+		}
+		one_resize(0);
+		one_resize(1);
+	} else if (strcmp(fn, "nni_id_set") == 0) {
+		if (P.count >= IDM_MAXCOUNT || !can_run(true)) {
+			printf("REPLAY-RESULT: skipped (pre-state outside what the real code can be run on)\n");
+			return 3;
+		}
+		for (unsigned c = 0; c < nc; c++) {
+			one_set(cand[c], 0, c == 0);
+			one_set(cand[c], 1, c == 0);
+		}
+	} else if (strcmp(fn, "nni_id_remove") == 0) {
+		if (!can_run(false)) {
+			printf("REPLAY-RESULT: skipped (the real code need not terminate on this table)\n");
+			return 3;
+		}
+		for (unsigned c = 0; c < nc; c++) {
+			one_remove(cand[c], 0, c == 0);
+			one_remove(cand[c], 1, c == 0);
+		}
+	} else {
+		for (unsigned c = 0; c < nc; c++)
+			one_get(cand[c], c == 0);
+	}
+	alarm(0);
+	VP_DONE();
+}
 
 int
 main(int argc, char **argv)
@@ -33,6 +568,8 @@ main(int argc, char **argv)
 		return 2;
 	}
 	vp_load(argv[1]);
+	if (strcmp(fn, "nni_id_set") == 0 || strcmp(fn, "nni_id_remove") == 0 || strcmp(fn, "nni_id_get") == 0 || strcmp(fn, "id_resize") == 0)
+		return replay_table(fn);
 	uint64_t min = vp_u64("vp_in_min", 1), max = vp_u64("vp_in_max", 0xffffffffu);
 	uint64_t dyn = vp_u64("vp_in_dyn", 0);
 	uint64_t cnt = vp_u64("vp_in_count", 0);
